@@ -98,7 +98,8 @@ KEYSETS = {
 }
 
 
-def gen_file(rng, n, nkeycols, nfeat=3, mult=(1, 6), file_idx=0, label_enc="pm1", quality=0.7, levels=(), npep=None):
+def gen_file(rng, n, nkeycols, nfeat=3, mult=(1, 6), file_idx=0, label_enc="pm1", quality=0.7, levels=(), npep=None,
+             distinct=False):
     """one PSM table as dict of columns; spectra with 1..mult PSMs; integer-valued features"""
     rows = []
     spec = 0
@@ -137,6 +138,11 @@ def gen_file(rng, n, nkeycols, nfeat=3, mult=(1, 6), file_idx=0, label_enc="pm1"
         for i in range(n):
             good = tg[i] and rng.random() < quality
             vals.append(rng.randint(40, 100) if good else rng.randint(0, 60))
+        if distinct:
+            # pairwise distinct values with the same ranking tendency
+            order = sorted(range(n), key=lambda i: (vals[i], rng.random()))
+            for rank, i in enumerate(order):
+                vals[i] = 3 * rank + rng.randint(0, 2)
         cols["feat%d" % j] = vals
     npep = npep or max(2, n // 3)
     cols["Peptide"] = ["K.PEP%dK.A" % rng.randint(0, npep) for _ in range(n)]
@@ -196,6 +202,68 @@ class Chunking:
             setattr(importlib.import_module(mod), attr, v)
 
 
+class Sleeps:
+    """perturb task durations: wrap mokapot's worker functions with short random sleeps so that
+    worker threads finish in a different order from run to run"""
+    TARGETS = [("mokapot.brew", "_fit_model"), ("mokapot.brew", "predict_fold"),
+               ("mokapot.parsers.pin", "get_rows_from_dataframe"),
+               ("mokapot.parsers.pin", "drop_missing_values_and_fill_spectra_dataframe"),
+               ("mokapot.parsers.pin", "concat_and_reindex_chunks"),
+               ("mokapot.confidence", "_save_sorted_metadata_chunks")]
+
+    def __init__(self, seed=None):
+        self.seed = seed
+        self.old = []
+
+    def __enter__(self):
+        if self.seed is None:
+            return self
+        import importlib
+        import random
+        import time
+        rng = random.Random(self.seed)
+        lock = threading.Lock()
+
+        def wrap(f):
+            def g(*a, **k):
+                with lock:
+                    dt = rng.random() * 0.004
+                time.sleep(dt)
+                return f(*a, **k)
+            g.__name__ = getattr(f, "__name__", "wrapped")
+            return g
+        for mod, name in self.TARGETS:
+            m = importlib.import_module(mod)
+            f = getattr(m, name)
+            self.old.append((m, name, f))
+            setattr(m, name, wrap(f))
+        return self
+
+    def __exit__(self, *a):
+        for m, name, f in self.old:
+            setattr(m, name, f)
+        self.old = []
+
+
+def parse_result_file(path, level_cols=()):
+    import pandas as pd
+    if path.suffix == ".parquet":
+        df = pd.read_parquet(path)
+    else:
+        df = pd.read_csv(path, sep="\t", float_precision="round_trip")
+    rows = []
+    for _, r in df.iterrows():
+        rows.append({"id": str(r["PSMId"]), "peptide": str(r["peptide"]), "proteins": str(r["proteinIds"]),
+                     "score": float(r["score"]), "q": Fraction(float(r["q-value"])),
+                     "extra": {lv: str(r[lv]) for lv in level_cols if lv in df.columns}})
+    return rows
+
+
+def _const_peps(scores, targets, *a, **k):
+    import numpy as np
+    return np.zeros(len(scores))
+
+
 def run_brew(case, keep_dir=None):
     """run the real read_pin + brew on the case; returns the observation dict"""
     import numpy as np
@@ -207,15 +275,18 @@ def run_brew(case, keep_dir=None):
         paths = [write_file(f, d, "file%d" % i, case.get("fmt", "tsv"), case.get("row_group"))
                  for i, f in enumerate(case["files"])]
         ch = case.get("chunks", {})
-        with Chunking(**ch):
-            dss = mokapot.read_pin(paths, max_workers=1)
+        with Chunking(**ch), Sleeps(case.get("sleep_seed")):
+            dss = mokapot.read_pin(paths, max_workers=case.get("read_workers", 1))
             keys = [spectrum_keys(ds) for ds in dss]
             reset_log()
-            est = Transparent(mode=case.get("est_mode", "decision"), learn=case.get("learn", True),
-                              kind=case.get("est_kind", "col"))
-            model = Model(est, scaler=RecScaler(), train_fdr=case.get("train_fdr", 1.0),
-                          max_iter=case.get("max_iter", 1), override=case.get("override", True),
-                          rng=case["seed"])
+            if case.get("learner") == "percolator":
+                model = mokapot.PercolatorModel(train_fdr=case.get("train_fdr", 0.2), max_iter=3, rng=case["seed"])
+            else:
+                est = Transparent(mode=case.get("est_mode", "decision"), learn=case.get("learn", True),
+                                  kind=case.get("est_kind", "col"))
+                model = Model(est, scaler=RecScaler(), train_fdr=case.get("train_fdr", 1.0),
+                              max_iter=case.get("max_iter", 1), override=case.get("override", True),
+                              rng=case["seed"])
             try:
                 _, models, scores, descs = mokapot.brew(
                     dss, model, test_fdr=float(case["test_fdr"]), folds=case["folds"],
@@ -225,6 +296,27 @@ def run_brew(case, keep_dir=None):
                 if isinstance(e, (KeyboardInterrupt, SystemExit, MemoryError)):
                     raise
                 return {"keys": keys, "error": lib.err_kind(e), "message": str(e)[:200]}
+            conf_files, leftovers = None, None
+            if case.get("confidence"):
+                import mokapot.confidence as conf
+                out = Path(d) / "out"
+                out.mkdir(exist_ok=True)
+                oldp = conf.peps_from_scores
+                conf.peps_from_scores = _const_peps
+                try:
+                    prefixes = ["coll%d" % i for i in range(len(paths))] if len(paths) > 1 else [None]
+                    mokapot.assign_confidence(dss, max_workers=case.get("workers", 1), scores=list(scores),
+                                              descs=list(descs), eval_fdr=0.5, dest_dir=out, prefixes=prefixes,
+                                              decoys=True)
+                finally:
+                    conf.peps_from_scores = oldp
+                conf_files, leftovers = {}, []
+                for fn in sorted(os.listdir(out)):
+                    parts = fn.split(".")
+                    if "targets" in parts or "decoys" in parts:
+                        conf_files[fn] = [(r["id"], r["score"], r["q"]) for r in parse_result_file(out / fn)]
+                    else:
+                        leftovers.append(fn)
         fit_by_token = dict(LOG["fit"])
         tr = {}
         for tok, ids in LOG["transform"]:
@@ -236,11 +328,14 @@ def run_brew(case, keep_dir=None):
             "cols": [getattr(m.estimator, "col_", None) for m in models],
             "train_ids": [sorted(fit_by_token.get(getattr(m.scaler, "token_", None), [])) for m in models],
             "scored_ids": [sorted(tr.get(getattr(m.scaler, "token_", None), [])) for m in models],
+            "coef": [getattr(m.estimator, "coef_", None).tolist() if getattr(m.estimator, "coef_", None) is not None else None for m in models],
             "scores": [[Fraction(float(v)) if np.isfinite(v) else None for v in np.asarray(s).ravel()] for s in scores],
             "descs": [bool(x) for x in descs],
             "feat_pass": [int(m.feat_pass) if m.feat_pass is not None else None for m in models],
             "best_feat": [m.best_feat if isinstance(m.best_feat, str) else None for m in models],
             "model_desc": [None if m.desc is None else bool(m.desc) for m in models],
+            "conf": conf_files, "leftovers": leftovers,
+            "features": [list(ds.feature_columns) for ds in dss],
             "override": [bool(m.override) for m in models],
         }
         return obs
